@@ -36,7 +36,94 @@ func (c14) Plan(tier string) []mon.RunSpec {
 	return []mon.RunSpec{{Flavour: "plain"}, {Flavour: "checkptr", Every: 2}}
 }
 
-func (c14) Run(c *mon.Ctx, i int) {
+// endurance: one long-lived Writer (a pooled one on a flaky connection) goes
+// through many failure/Reset cycles, the failure landing in block data; it
+// must neither panic nor degrade: the stream written after the last Reset is
+// checked like any other.
+func (c14) endurance(c *mon.Ctx) {
+	r := c.R
+	s := accelSettings[r.Intn(len(accelSettings))]
+	s.Wrapper = []string{"flate", "gzip", "zlib"}[r.Intn(3)]
+	if s.Wrapper != "flate" {
+		s.Win4K = false
+	}
+	w, err := NewWriter(c.API, s, &Sink{})
+	if err != nil {
+		return
+	}
+	g, _ := w.(impl.Guarded)
+	if g != nil {
+		g.InstallGuards()
+		defer g.DropGuards()
+	}
+	desc := map[string]interface{}{"setting": s.String(), "shape": "endurance: 1200 failure/Reset cycles on one Writer"}
+	data := gen.Make(r, "uniform", 30000).B
+	E := errors.New("c14: destination failed")
+	for cyc := 0; cyc < 1200; cyc++ {
+		sink := &Sink{FailAt: r.Range(1, 4), FailErr: E, Partial: cyc%3 == 1, FullCount: cyc%3 == 2}
+		var e1, e2 error
+		pv, st := mon.Safe(func() {
+			w.Reset(sink)
+			_, e1 = w.Write(data)
+			e2 = w.Close()
+		})
+		c.Eval(1)
+		if pv != nil {
+			desc["stack"], desc["cycle"] = st, cyc
+			c.Violate("panic|endurance|"+s.Wrapper+"|"+mon.PanicSite(st), fmt.Sprintf("%s: cycle %d of failing write + Reset on one Writer panicked: %v", s, cyc, pv), desc)
+			return
+		}
+		if sink.failed && e1 == nil && e2 == nil {
+			desc["cycle"] = cyc
+			c.Violate("failure-not-reported|endurance|"+s.Wrapper, fmt.Sprintf("%s: cycle %d: destination failed but Write and Close returned nil", s, cyc), desc)
+			return
+		}
+		if g != nil {
+			g.InstallGuards()
+			if e := g.CheckGuards(); e != nil {
+				c.Violate("redzone|endurance|"+s.Wrapper, e.Error(), desc)
+				return
+			}
+		}
+	}
+	good := &Sink{}
+	var e1, e2 error
+	pv, st := mon.Safe(func() {
+		w.Reset(good)
+		_, e1 = w.Write(data)
+		e2 = w.Close()
+	})
+	if pv != nil {
+		desc["stack"] = st
+		c.Violate("panic|endurance-final|"+s.Wrapper+"|"+mon.PanicSite(st), fmt.Sprintf("%s: after 1200 failure/Reset cycles a normal stream panicked: %v", s, pv), desc)
+		return
+	}
+	raw, ok := good.Buf.Bytes(), e1 == nil && e2 == nil
+	if ok {
+		switch s.Wrapper {
+		case "gzip":
+			raw, ok = gzipDeflatePart(raw)
+		case "zlib":
+			raw, ok = zlibDeflatePart(raw)
+		}
+	}
+	if !ok {
+		c.Violate("unusable-after-endurance|"+s.Wrapper, fmt.Sprintf("%s: after 1200 failure/Reset cycles: Write err=%v Close err=%v", s, e1, e2), desc)
+		return
+	}
+	if sig, what, _ := DecodeChecks(c.API, raw, data, nil); sig != "" {
+		c.Violate("invalid-after-endurance|"+sig+"|"+s.Wrapper, what, desc)
+		return
+	}
+	c.Count("endurance-runs-held", 1)
+	c.Nontrivial("endurance", s.String(), data)
+}
+
+func (p c14) Run(c *mon.Ctx, i int) {
+	if i%20 == 19 {
+		p.endurance(c)
+		return
+	}
 	r := c.R
 	s := Setting{Wrapper: []string{"flate", "flate", "gzip", "zlib"}[i%4]}
 	if r.Chance(4, 5) {
@@ -305,9 +392,15 @@ func (c14) Run(c *mon.Ctx, i int) {
 		if k%7 == 0 {
 			after := &Sink{}
 			var e1, e2 error
+			extra := extra
+			if r.Bool() {
+				extra = nil // an empty stream: Close straight after Reset
+			}
 			pv, st := mon.Safe(func() {
 				w.Reset(after)
-				_, e1 = w.Write(extra)
+				if extra != nil {
+					_, e1 = w.Write(extra)
+				}
 				e2 = w.Close()
 			})
 			if pv != nil {
